@@ -444,6 +444,17 @@ def main(ctx):
     widened = bool(relevant)
     if degraded:
         ctx.notes['translator_degraded'] = degraded
+    elif tie_ok and str(lib.REPO) == '/repo':
+        # the registered tree translates completely: the baseline must be what it translates to
+        try:
+            base = c03_cnt.load_baseline()['tables']
+            stale = sorted(k for k in tables if json.loads(json.dumps(tables[k])) != base.get(k))
+        except (OSError, ValueError, KeyError) as e:
+            stale = [f'baseline unreadable: {e}']
+        if stale:
+            ctx.notes['baseline_stale'] = stale
+            ctx.log('translate/c03_baseline.json differs from the translation of /repo in', stale,
+                    '(refresh: python translate/c03_cnt.py --write-baseline /repo)')
     proof_ok = False
     props = lib.COQ / 'C03' / 'Props.v'
     if tie_ok and props.exists():
